@@ -1,6 +1,7 @@
 package main
 
 import (
+	"reflect"
 	"runtime"
 
 	"github.com/hedzr/logg/slog"
@@ -36,4 +37,15 @@ var c06verbSites = []c06verbSite{
 	{"pkg.PrintlnContext", func(lg *slog.Entry, msg string) uintptr { pc := c06herePC(); slog.PrintlnContext(bg, msg, "k", 1); return pc }},
 	{"pkg.PrintContext", func(lg *slog.Entry, msg string) uintptr { pc := c06herePC(); slog.PrintContext(bg, msg, "k", 1); return pc }},
 	{"pkg.Info", func(lg *slog.Entry, msg string) uintptr { pc := c06herePC(); slog.Info(msg, "k", 1); return pc }},
+	{"Info as the last statement of a small helper that the compiler inlines", func(lg *slog.Entry, msg string) uintptr { c06inlOuter(lg, msg); return c06inlLeafPC() }},
 }
+
+// A logging helper small enough to be inlined, whose logging call is its last instruction, called as the last statement
+// of another small function: the record belongs to the helper (file, line AND function). Keep each on one line.
+func c06inlLeaf(lg slog.Logger, msg string) { lg.Info(msg, "k", 1) }
+
+//go:noinline
+func c06inlOuter(lg slog.Logger, msg string) { c06inlLeaf(lg, msg) }
+
+// c06inlLeafPC is a return-address-like counter inside c06inlLeaf (its entry plus one: runtime.CallersFrames steps back by one).
+func c06inlLeafPC() uintptr { return reflect.ValueOf(c06inlLeaf).Pointer() + 1 }
